@@ -38,6 +38,7 @@ type Case struct {
 	SessOpts   int      `json:"session_opts,omitempty"`   // with ViaSession: 1 = also PrepareStmt, 2 = also SkipHooks, 3 = both and SkipDefaultTransaction
 	ViaConn    bool     `json:"via_connection,omitempty"` // the operation runs inside h.Connection(func(tx) …), on one dedicated connection
 	Sibling    int      `json:"sibling,omitempty"`        // 1..5: other handles bound to another context are derived from the operation's handle first and abandoned
+	OuterTx    bool     `json:"outer_tx,omitempty"`       // the operation's handle is tx.WithContext(ctx) of a transaction begun under another context
 	Deadline   bool     `json:"deadline,omitempty"`       // the caller's context also has a deadline (an hour away: it never fires)
 	Warm       bool     `json:"warm"`                     // run the operation once before (statements already prepared / schemas parsed)
 	HookStmts  bool     `json:"hook_stmts"`               // model hooks issue a statement of their own through the *gorm.DB they are given
@@ -81,6 +82,7 @@ func (Prop) Gen(r *core.Rand, tier string) interface{} {
 	}
 	c.ViaConn = r.Chance(12)
 	c.Deadline = r.Chance(35)
+	c.OuterTx = !c.ViaConn && r.Chance(20)
 	if c.ViaSession && r.Chance(50) {
 		c.SessOpts = r.Range(1, 3)
 	}
@@ -222,6 +224,18 @@ func (p Prop) exec(c *Case, cancelAt int) (*execInfo, error) {
 		}
 		ctx, cancel := context.WithCancel(parent)
 		defer cancel()
+		root := e.DB
+		if c.OuterTx {
+			// the operation runs inside a transaction somebody else began under another
+			// context, on a handle re-bound to its own: tx.WithContext(ctx)
+			outer := context.WithValue(context.Background(), tagKey{}, "outer-tx-ctx")
+			otx := e.DB.WithContext(outer).Begin()
+			if otx.Error != nil {
+				return ops.Result{Err: otx.Error}
+			}
+			defer otx.Rollback()
+			root = otx
+		}
 		info.startSeq = e.Drv.Tick()
 		if pool != nil {
 			pool.Cancel = cancel
@@ -246,12 +260,12 @@ func (p Prop) exec(c *Case, cancelAt int) (*execInfo, error) {
 			case 3:
 				sess.PrepareStmt, sess.SkipHooks, sess.SkipDefaultTransaction = true, true, true
 			}
-			h = e.DB.Session(sess)
+			h = root.Session(sess)
 			if p, ok := h.Statement.ConnPool.(*gorm.PreparedStmtDB); ok && sess.PrepareStmt && !c.Prepare {
 				defer p.Close()
 			}
 		} else {
-			h = e.DB.WithContext(ctx)
+			h = root.WithContext(ctx)
 		}
 		if c.Sibling != 0 {
 			// other handles derived from h and bound to another (cancelled) context:
